@@ -60,6 +60,11 @@ Step ==
        [] e.k = "glp" ->
             /\ err' = IF ph # "told" THEN "protocol" ELSE CallCheck(e)
             /\ T' = T /\ ph' = ph
+       [] e.k = "final" ->
+            /\ err' = IF T.n > 0 /\ (~NoStructChange(e) \/ e.pd # T.pdepth) THEN "final.struct-change" ELSE "ok"
+            /\ T' = T /\ ph' = ph
+       [] e.k = "script" -> err' = "replay.script" /\ T' = T /\ ph' = ph
+       [] e.k = "ctor" -> err' = "ctor.raises" /\ T' = T /\ ph' = ph
        [] e.k = "end" ->
             /\ err' = IF e.dom_same = 1 THEN "ok" ELSE "end.domain-mutated"
             /\ T' = T /\ ph' = ph
